@@ -65,6 +65,9 @@ type Ärger struct{ N int }
 
 type MyInt int
 
+// named like the names a generator is likely to invent for type parameters
+type T0 int
+
 type LI interface{ Foo() int }
 
 type LG[T any] struct{ V T }
@@ -409,6 +412,8 @@ func Corpus(o Options) []Case {
 		form("generic params named like two packages the signatures use", "[sync any, fmt comparable]", 2, "\tM(s syncp.S, k fmt) (sync, fmtp.F)\n", []string{"M"}, [][]string{{"int", "string"}, {"error", "src.LT"}}, "")
 		form("generic params whose names method parameters reuse", "[a any, T any]", 2, "\tM(a int, T string) (v int)\n\tN(x a) T\n", []string{"M", "N"}, [][]string{{"int", "string"}, {"error", "src.LT"}}, "")
 		form("generic blank param", "[_ any]", 1, "\tM(a int) int\n", []string{"M"}, simpleT, "")
+		form("generic two blank params with one constraint", "[_ any, _ any]", 2, "\tM(a int) int\n", []string{"M"}, [][]string{{"int", "string"}, {"error", "src.LT"}}, "")
+		form("generic blank param next to a local type named T0", "[_ any]", 1, "\tM(a T0, T1 MyInt) T0\n", []string{"M"}, simpleT, "")
 		form("generic blank params around a named one", "[_ any, T any, _ comparable]", 3, "\tM(a T) T\n", []string{"M"}, [][]string{{"int", "string", "int"}, {"error", "src.LT", "string"}}, "")
 		// named type whose underlying type is an instantiated generic interface
 		n := ident(len(cases))
